@@ -99,7 +99,7 @@ theorem Reader.stepSC_frame (sc : SC K B V) (r : Reader K B V)
       rw [this]; exact RFrame.id sc r
     | some m =>
       have hs : r.stepSC sc = { sc with cache := aset sc.cache r.key (m.containsOrAdd r.blk e).1,
-                                        evictions := sc.evictions + (m.containsOrAdd r.blk e).2.toNat } := by
+                                        evictions := sc.evictions + (m.containsOrAdd r.blk e).2.toNat, entryEv := sc.entryEv + (m.containsOrAdd r.blk e).2.toNat } := by
         unfold Reader.stepSC; rw [hpc]; simp only [hm]
       have hc : (r.stepSC sc).cache = aset sc.cache r.key (m.containsOrAdd r.blk e).1 := by rw [hs]
       have hne : (m.containsOrAdd r.blk e).2 = false := by
